@@ -172,16 +172,20 @@ def run_case(rng, idx, tier, lane, ctx):
         if rng.random() < 0.5:
             kind = rng.choice(BAD)
             v = fresh_val()
+            # the name that is not a parameter: an arbitrary word, the time symbol, one of the model's STATES, a near-miss of a real name
+            unk = rng.choice(["zzz", "zzz", "t", "t", rng.choice(spec["states"]), P[0] + "_", P[0].upper() if P[0].upper() not in P else "zzz"])
+            counters["unknown_name_" + ("word" if unk == "zzz" else "time-symbol" if unk == "t" else "state" if unk in spec["states"] else "near-miss")] = \
+                counters.get("unknown_name_" + ("word" if unk == "zzz" else "time-symbol" if unk == "t" else "state" if unk in spec["states"] else "near-miss"), 0) + 1
             if kind == "dict-unknown-only":
-                badarg = {"zzz": v}
+                badarg = {unk: v}
             elif kind == "dict-known+unknown":
                 if len(P) < 2:
                     kind = "dict-unknown-only"
-                    badarg = {"zzz": v}
+                    badarg = {unk: v}
                 else:
-                    badarg = {rng.choice(P): v, "zzz": fresh_val()}
+                    badarg = {rng.choice(P): v, unk: fresh_val()}
             elif kind == "pairs-unknown":
-                badarg = [("zzz", v)] + [(n, fresh_val()) for n in P[1:]]
+                badarg = [(unk, v)] + [(n, fresh_val()) for n in P[1:]]
             elif kind == "list-long":
                 badarg = [fresh_val() for _ in range(len(P) + 1)]
             elif kind == "list-short":
@@ -189,7 +193,7 @@ def run_case(rng, idx, tier, lane, ctx):
             elif kind == "array-long":
                 badarg = np.array([fresh_val() for _ in range(len(P) + 2)])
             else:
-                badarg = {**{n: fresh_val() for n in P}, "zzz": v}
+                badarg = {**{n: fresh_val() for n in P}, unk: v}
             history.append({"form": "REJECTED:" + kind, "values": repr(badarg)[:200]})
             counters["rejected_inputs"] += 1
             counters["bad_" + kind] = counters.get("bad_" + kind, 0) + 1
